@@ -170,6 +170,14 @@ impl<L: Language> DeserializeEnv<L> {
     let order = TopologicalSort::get_order(utils)
       .map_err(ReferentRuleError::CyclicRule)
       .map_err(RuleSerializeError::MatchesReference)?;
+    #[cfg(feature = "verif-hooks")]
+    ast_grep_core::verif::emit(
+      "order",
+      &[
+        ("site", ast_grep_core::verif::V::S("utils")),
+        ("keys", ast_grep_core::verif::V::S(&order.join(","))),
+      ],
+    );
     for id in order {
       let rule = utils.get(id).expect("must exist");
       let rule = self.deserialize_rule(rule.clone())?;
@@ -209,6 +217,16 @@ impl<L: Language> DeserializeEnv<L> {
     &self,
     trans: &'a HashMap<String, Transformation>,
   ) -> Result<Vec<&'a str>, String> {
+    #[cfg(feature = "verif-hooks")]
+    if let Ok(order) = TopologicalSort::get_order(trans) {
+      ast_grep_core::verif::emit(
+        "order",
+        &[
+          ("site", ast_grep_core::verif::V::S("transform")),
+          ("keys", ast_grep_core::verif::V::S(&order.join(","))),
+        ],
+      );
+    }
     TopologicalSort::get_order(trans)
   }
 
